@@ -35,9 +35,9 @@ VARIABLES S,       \* the state record of HttpServer
 vars == <<S, mode, batch, todo, kAtStart>>
 
 Digit(n) == <<48 + n>>
-Get(c, k) == L_S_GET_A \o Digit(c) \o Digit(k) \o L_S_GET_B
-PutExpect(c, k) == L_S_PUT_A \o Digit(c) \o Digit(k) \o L_S_PUT_B
-PutBig(c, k) == L_S_BIG_A \o Digit(c) \o Digit(k) \o L_S_BIG_B
+Get(c, k) == L_S_GET_A \o Digit(c) \o <<47>> \o Digit(k) \o L_S_GET_B
+PutExpect(c, k) == L_S_PUT_A \o Digit(c) \o <<47>> \o Digit(k) \o L_S_PUT_B
+PutBig(c, k) == L_S_BIG_A \o Digit(c) \o <<47>> \o Digit(k) \o L_S_BIG_B
 
 Program(c, p) ==
     CASE p = 1 -> <<Get(c, 1)>>
